@@ -288,9 +288,44 @@ def r6(ctx, facts):
                        % (fn_short(c.name or "?"), fn_short(b.path)), c.span)
 
 
+def r7(ctx, facts):
+    r = ctx.rule("R7", "the decoder reports HasMorePages exactly when the frame's HAS_MORE_PAGES flag is set (whatever the paging-state bytes)", floor=3)
+    NEW = "PagingStateResponse::new_from_raw_bytes"
+    ALLOWED = ("bool::then", "Option::<core::result::Result<T, E>>::transpose", "Option::<T>::transpose", "Try::branch", "Result::<T, E>::map_err", "FromResidual",
+               "Option::<T>::map", "Result::<T, E>::map", "Option::<T>::as_ref", "Option::<T>::as_deref", "Option::<T>::cloned", "Option::<T>::copied")
+    n = 0
+    for b in facts.bodies.mentioning('"scylla_cql_core::frame::request::query::' + NEW + '"', NEW):
+        if b.crate not in ("scylla_cql", "scylla_cql_core"):
+            continue
+        for c in b.calls_to(NEW):
+            n += 1
+            _, calls, _ = backward_slice(b, c.args[0], data_only=True)
+            names = [(x.callee.get("def") or x.name or "") for x in calls]
+            then = [x for x in names if "bool" in x and (x.endswith("::then") or x.endswith("::then_some"))]
+            odd = sorted({x.split("::")[-1] for x in names if (x.startswith("core::option::Option::<") or x.startswith("core::result::Result::<")) and not any(x.endswith(a) or a in x for a in ALLOWED)})
+            r.instance("flag-decides:" + fn_short(b.path), bool(then) and not odd,
+                       "the Option handed to PagingStateResponse::new_from_raw_bytes must be Some exactly when the HAS_MORE_PAGES flag is set (`flag.then(read_bytes)`); "
+                       "it also passes through %s, which can turn Some into None (e.g. for an empty paging state): the page would be taken for the last one" % odd, c.span)
+    if n == 0:
+        raise AnchorLost("no call of PagingStateResponse::new_from_raw_bytes in the response decoders")
+    nb = facts.one(r"^scylla_cql_core::frame::request::query::PagingStateResponse::new_from_raw_bytes$")
+    ndf = df_of(nb, facts)
+    good = True
+    found = 0
+    for bb in nb.live_blocks:
+        for j, st in enumerate(nb.stmts(bb)):
+            if st[0] == "A" and st[2][0] == "agg" and st[2][1][0] == "adt" and st[2][1][1].endswith("PagingStateResponse"):
+                found += 1
+                stt = ndf.state_before_stmt(bb, j) or {}
+                want = 1 if st[2][1][2] == "HasMorePages" else 0
+                if not any(k[0] == "disc" and k[1][0] == 1 and in_set(v, {want}) for k, v in stt.items()):
+                    good = False
+    r.instance("new_from_raw_bytes:some-iff-more", found >= 2 and good, "new_from_raw_bytes must map Some(bytes) to HasMorePages and None to NoMorePages", nb.span)
+
+
 def check(ctx):
     facts = inline_view(ctx.facts("default"))
-    for fn in (r1, r2, r3, r4, r5, r6):
+    for fn in (r1, r2, r3, r4, r5, r6, r7):
         try:
             fn(ctx, facts)
         except AnchorLost as ex:
